@@ -54,7 +54,10 @@ QNOKEY  == "evnokey"  \* harness EVM: SupportedKey(pubkey) = FALSE
 IBCDenoms == {"ibc/x1", "ibc/x2"}   \* denoms the harness ICS20 keeper has a trace for
 UsersOf(t) == DOMAIN t.bal \ {TOK, FEEP}
 ErcAddrs(t) == UsersOf(t) \cup {EXT}
-Blocked(a) == a = FEEP
+(* blocked recipients (bank keeper): the fee collector / distribution accounts
+   and, since fix 20cb755 of the application wiring, the irismod module accounts
+   — here the token module's own *)
+Blocked(a) == a \in {FEEP, TOK}
 
 NoEv == [name |-> "Init", who |-> "", sym |-> "", mu |-> "", scale |-> 0, initial |-> 0,
          max |-> 0, mintable |-> "", to |-> "", amt |-> 0, fee |-> 0,
@@ -737,6 +740,10 @@ PrologueSeq ==
                        !.scale = PScaleA, !.initial = 3, !.max = 6, !.mintable = "true"],
           [NoEv EXCEPT !.name = "Issue", !.who = "u2", !.sym = "bbb", !.mu = "mbb",
                        !.scale = PScaleB, !.initial = 3, !.max = 90, !.mintable = "true"],
+          [NoEv EXCEPT !.name = "Deploy", !.sym = "aaa", !.mu = "maa", !.scale = PScaleA] >>
+  ELSE IF Prologue = "life"     \* one token bound to a contract (life-cycle config)
+  THEN << [NoEv EXCEPT !.name = "Issue", !.who = "u1", !.sym = "aaa", !.mu = "maa",
+                       !.scale = PScaleA, !.initial = 3, !.max = 6, !.mintable = "true"],
           [NoEv EXCEPT !.name = "Deploy", !.sym = "aaa", !.mu = "maa", !.scale = PScaleA] >>
   ELSE << >>
 PIdx(s) == Cardinality(DOMAIN s.tok) + s.nonce
